@@ -1,5 +1,10 @@
 """C07: GeoJSON round-trips geometries, features and collections; decoding is total."""
+import json
+import random
 import vlib
+
+UNKNOWN = ["x", "?"]          # the JSON value of the input bytes is not known to the generator: only totality is demanded
+GEOM_TYPES = ("Point", "LineString", "Polygon", "MultiPoint", "MultiLineString", "MultiPolygon", "GeometryCollection")
 
 
 def pipe(ctx, verdict, cases, name="geojson"):
@@ -15,22 +20,327 @@ def pipe(ctx, verdict, cases, name="geojson"):
 PIPES = {"geojson": pipe}
 
 
+# ---------------------------------------------------------------- rendering tagged JSON trees (specs/GeoJSON.tla) to bytes
+def esc(s, r, p):
+    out = []
+    for ch in s:
+        if r is not None and r.random() < p:
+            out.append("\\u%04x" % ord(ch))
+        else:
+            out.append(json.dumps(ch)[1:-1])
+    return '"' + "".join(out) + '"'
+
+
+def spell_int(k, r):
+    """another spelling of the same number (RFC 8259 number grammar)"""
+    c = r.randrange(9)
+    if c == 0:
+        return "%d.0" % k
+    if c == 1:
+        return "%d.000" % k
+    if c == 2:
+        return "%de0" % k
+    if c == 3:
+        return "%dE+0" % k
+    if c == 4 and k != 0:
+        return "%d0e-1" % k
+    if c == 5 and k != 0:
+        return "%d00E-2" % k
+    if c == 6 and k % 10 == 0 and k != 0:
+        return "%de1" % (k // 10)
+    return str(k)
+
+
+def render(j, r=None, hook=None, path=()):
+    """Text of a tagged tree.  r: random spelling (white space, member order, numbers, string escapes) - the value the
+    text denotes stays the same.  hook(path, j, members) may rewrite the list of rendered (key, value) texts of an object."""
+    def ws():
+        return "" if r is None else r.choice(["", "", "", " ", "\n", "\t ", "  "])
+    t = j[0]
+    if t == "null":
+        return "null"
+    if t == "b":
+        return "true" if j[1] else "false"
+    if t == "n":
+        return str(j[1]) if r is None else spell_int(j[1], r)
+    if t == "x":
+        return j[1]
+    if t == "s":
+        return esc(j[1], r, 0.15)
+    if t == "a":
+        return "[" + ws() + ("," + ws()).join(render(e, r, hook, path + (i,)) + ws() for i, e in enumerate(j[1])) + "]"
+    if t == "o":
+        mem = [(esc(k, r, 0.1), render(v, r, hook, path + (k,))) for k, v in j[1]]
+        if r is not None:
+            r.shuffle(mem)
+        if hook:
+            mem = hook(path, j, mem)
+        return "{" + ws() + ("," + ws()).join(k + ws() + ":" + ws() + v + ws() for k, v in mem) + "}"
+    raise vlib.Infra("bad tagged JSON %r" % (j,))
+
+
+def nodes(j, path=()):
+    yield path, j
+    if j[0] == "a":
+        for i, e in enumerate(j[1]):
+            yield from nodes(e, path + (i,))
+    elif j[0] == "o":
+        for i, (k, v) in enumerate(j[1]):
+            yield from nodes(v, path + (i,))
+
+
+def replaced(j, path, new):
+    if not path:
+        return new
+    i = path[0]
+    if j[0] == "a":
+        return ["a", j[1][:i] + [replaced(j[1][i], path[1:], new)] + j[1][i + 1:]]
+    return ["o", j[1][:i] + [[j[1][i][0], replaced(j[1][i][1], path[1:], new)]] + j[1][i + 1:]]
+
+
+def with_member(o, key, val):
+    """object with member key set to val (keys stay sorted and unique, as the specification's Obj wants them)"""
+    mem = [kv for kv in o[1] if kv[0] != key] + [[key, val]]
+    return ["o", sorted(mem, key=lambda kv: kv[0])]
+
+
+def member(o, key):
+    for k, v in o[1]:
+        if k == key:
+            return v
+    return None
+
+
+def is_geom_obj(j):
+    t = member(j, "type") if j[0] == "o" else None
+    return t is not None and t[0] == "s" and t[1] in GEOM_TYPES
+
+
+def is_feature_obj(j):
+    t = member(j, "type") if j[0] == "o" else None
+    return t is not None and t[0] == "s" and t[1] == "Feature"
+
+
+PT = ["o", [["coordinates", ["a", [["n", 1], ["n", 2]]]], ["type", ["s", "Point"]]]]
+VALUES = [["null"], ["b", True], ["b", False], ["n", 0], ["n", 1], ["n", 7], ["s", ""], ["s", "x"], ["s", "Point"], ["s", "Feature"], ["a", []],
+          ["o", []], ["a", [["n", 1]]], ["a", [["n", 1], ["n", 2]]], ["a", [["a", [["n", 1], ["n", 2]]]]], ["a", [["null"]]], PT,
+          ["a", [PT]], ["x", "1.5"], ["x", "-1"], ["x", "1e400"], ["a", [["n", 1], ["n", 2], ["n", 3], ["n", 4]]],
+          ["a", [["n", 1], ["n", 2], ["n", 3], ["n", 4], ["n", 5], ["n", 6]]], ["o", [["type", ["s", "Feature"]]]]]
+NUMBERS = ["0.1", "1.5", "-2.75", "-1", "-0", "-0.0", "1e2", "1E+2", "2.5e-3", "1e21", "1e22", "1e308", "1e309", "-1e309", "1E400", "1e-400",
+           "4.9e-324", "5e-324", "2e-324", "1.7976931348623157e308", "1.7976931348623159e308", "123456789012345678901234567890",
+           "9007199254740993", "0.000000000000000000001", "0.30000000000000004", "1e0000000000000000000001", "1e99999999999999999999",
+           "100000000000000000000000000000000000000000000000000000000000000000000000000000000000000000000000000000000000000000000000000000"
+           "0000000000000000000000000000000000000000000000000000000000000000000000000000000000000000000000000000000000000000000000000000000"
+           "00000000000000000000000000000000000000000000000000000000000000000000000", "12.50", "2147483648", "-2147483649", "4294967296"]
+# ids a float64 carries exactly enough (<= 15 significant digits): their value must survive; the others only must not break anything
+IDS = ["12", "0", "7", "-7", "1.5", "-0.25", "1e21", "1E+21", "1e-7", "2.5e-3", "12.50", "1.0", "100", "1e2", "123456789012345", "0.1", "-0",
+       "999999999999999", "1e300", "1e-300", "0.000001", "0.0000001", "1e20", "123456.789", "9007199254740993", "1e400", "1e-400",
+       "12345678901234567890", "0.1234567890123456789"]
+NONJSON = [b"", b" ", b"\n", b"\xef\xbb\xbf{}", b"nul", b"nulll", b"NaN", b"Infinity", b"-Infinity", b"undefined", b"{'type':'Point'}", b"{", b"}", b"[", b"]",
+           b"{}x", b"{} {}", b"{}{}", b"[1,2", b"{\"type\":}", b"{\"type\"}", b"{\"type\":\"Point\",}", b"{,}", b"[,]", b"[1,,2]", b"\"", b"\"abc", b"\\",
+           b"{\"type\":\"Point\",\"coordinates\":[1,2]} // c", b"/* c */ {}", b"{\"type\":\"Point\",\"coordinates\":[01,2]}", b"{\"type\":\"Point\",\"coordinates\":[+1,2]}",
+           b"{\"type\":\"Point\",\"coordinates\":[.5,2]}", b"{\"type\":\"Point\",\"coordinates\":[1.,2]}", b"{\"type\":\"Point\",\"coordinates\":[0x10,2]}",
+           b"{\"type\":\"Point\",\"coordinates\":[1e,2]}", b"{\"type\":\"Point\",\"coordinates\":[NaN,2]}", b"{\"type\":\"Point\",\"coordinates\":[Infinity,2]}",
+           b"{\"type\":\"Po\xffint\",\"coordinates\":[1,2]}", b"{\"type\":\"Po\x00int\"}", b"{\"type\":\"Point\\", b"{\"type\":\"\\ud800\"}", b"{\"type\":\"\\u12\"}",
+           b"\x00", b"\xff\xfe{\x00}\x00", b"true", b"false", b"0", b"-", b"1e5", b"\"Point\"", b"[]", b"[[]]", b"{}", b"{\"\":\"\"}", b"{\"type\":\"Point\"}\x00",
+           b"{\"type\":\"Feature\",\"geometry\":{\"type\":\"Point\",\"coordinates\":[1,2]},\"properties\":{\"a\":1e999}}",
+           b"{\"type\":\"Feature\",\"geometry\":{\"type\":\"Point\",\"coordinates\":[1,2]},\"properties\":null,\"id\":{}}",
+           b"{\"type\":\"FeatureCollection\",\"features\":[null,null]}", b"{\"type\":\"FeatureCollection\",\"features\":{}}",
+           b"{\"type\":\"FeatureCollection\",\"features\":[{\"type\":\"FeatureCollection\",\"features\":[]}]}",
+           b"{\"type\":\"GeometryCollection\",\"geometries\":[null]}", b"{\"type\":\"GeometryCollection\",\"geometries\":[{}]}",
+           b"{\"type\":\"GeometryCollection\",\"coordinates\":[1,2]}", b"{\"type\":\"Point\",\"geometries\":[]}"]
+CRS = [["o", [["properties", ["o", [["name", ["s", "EPSG:4326"]]]]], ["type", ["s", "name"]]]], ["n", 5], ["null"], ["s", "EPSG:4326"], ["a", []],
+       ["o", []], ["o", [["type", ["n", 5]]]], ["o", [["properties", ["a", []]], ["type", ["s", "name"]]]], ["o", [["properties", ["null"]]]]]
+BBOX = [["a", [["n", 1], ["n", 2], ["n", 1], ["n", 2]]], ["a", [["n", 1], ["n", 2], ["n", 3], ["n", 1], ["n", 2], ["n", 3]]], ["a", []], ["null"], ["s", "x"],
+        ["n", 4], ["a", [["n", 1]]], ["a", [["s", "x"], ["n", 2], ["n", 3], ["n", 4]]], ["o", []], ["a", [["null"], ["null"], ["null"], ["null"]]]]
+
+
+def case_variant(k, r):
+    c = r.randrange(4)
+    if c == 0:
+        return k.upper()
+    if c == 1:
+        return k.capitalize()
+    if c == 2:
+        return "".join(ch.upper() if r.random() < 0.5 else ch for ch in k)
+    return k[:-1] + k[-1].upper()
+
+
+def raw_cases(seed, bases, n):
+    """n seeded byte-level inputs for the three decoders.  bases: (kind, tagged document) pairs of the model (model
+    families "dec", "fdec" and the encoder images "enc")."""
+    r = random.Random(seed * 7919 + 17)
+    out = []
+
+    def add(cat, kind, data, doc=UNKNOWN):
+        out.append(dict(fam="dec", kind=kind, doc=doc, hex=data.hex(), cat=cat))
+
+    for b in NONJSON:
+        for kind in ("geom", "feature", "fc"):
+            add("nonjson", kind, b)
+    # deep nesting: arrays, collections inside collections, property maps
+    for k in [2, 7, 50, 500, 9998, 10001, 100000]:
+        for kind in ("geom", "feature", "fc"):
+            out.append(dict(fam="dec", kind=kind, doc=UNKNOWN, cat="nest", rep=dict(pre="[", mid="", post="]", n=k)))
+            out.append(dict(fam="dec", kind=kind, doc=UNKNOWN, cat="nest", rep=dict(pre="[", mid="1,2", post="]", n=k)))
+            out.append(dict(fam="dec", kind=kind, doc=UNKNOWN, cat="nest", rep=dict(pre='{"a":', mid="1", post="}", n=k)))
+    stock = [b for b in bases]
+    std = [b for b in bases if b[2]]
+    weights = dict(respell=5, truncate=3, bytemut=5, dupkey=2, casekey=2, numbers=3, foreign=2, wrongtype=4, numid=2, random=1, gcnest=0.3)
+    cats = list(weights)
+    while len(out) < n:
+        cat = r.choices(cats, [weights[c] for c in cats])[0]
+        kind, doc, _ = r.choice(std if r.random() < 0.6 and std else stock)
+        if cat == "respell":
+            add(cat, kind, render(doc, r).encode(), doc)
+        elif cat == "truncate":
+            t = render(doc, r if r.random() < 0.5 else None).encode()
+            if len(t) > 1:
+                add(cat, kind, t[:r.randrange(1, len(t))])
+        elif cat == "bytemut":
+            t = bytearray(render(doc, r if r.random() < 0.3 else None).encode())
+            for _ in range(r.choice([1, 1, 2, 3])):
+                if not t:
+                    break
+                p = r.randrange(len(t))
+                nb = r.choice(b'{}[],:"0123456789.eE+-\\ tfnul') if r.random() < 0.7 else r.randrange(256)
+                c = r.randrange(3)
+                if c == 0:
+                    t[p] = nb
+                elif c == 1:
+                    del t[p]
+                else:
+                    t.insert(p, nb)
+            add(cat, kind, bytes(t))
+        elif cat in ("dupkey", "casekey"):
+            objs = [p for p, j in nodes(doc) if j[0] == "o" and j[1]]
+            if not objs:
+                continue
+            target = r.choice(objs)
+
+            def hook(path, j, mem, target=target, cat=cat):
+                # path of render() uses keys, nodes() uses indices: identify the object by identity of its member list
+                if j is not hook.node:
+                    return mem
+                i = r.randrange(len(mem))
+                k, v = mem[i]
+                if cat == "dupkey":
+                    other = v if r.random() < 0.4 else render(r.choice(VALUES), r)
+                    mem = list(mem)
+                    mem.insert(r.randrange(len(mem) + 1), (k, other))
+                    return mem
+                key = json.loads(k)
+                nk = json.dumps(case_variant(key, r)) if key else k
+                mem = list(mem)
+                if r.random() < 0.5:
+                    mem[i] = (nk, v)                                   # only the variant spelling
+                else:
+                    mem.insert(r.randrange(len(mem) + 1), (nk, v if r.random() < 0.5 else render(r.choice(VALUES), r)))
+                return mem
+            node = doc
+            for i in target:
+                node = node[1][i] if node[0] == "a" else node[1][i][1]
+            hook.node = node
+            add(cat, kind, render(doc, r if r.random() < 0.5 else None, hook).encode())
+        elif cat == "numbers":
+            nums = [p for p, j in nodes(doc) if j[0] == "n"]
+            if not nums:
+                continue
+            d2 = doc
+            for p in r.sample(nums, min(len(nums), r.choice([1, 1, 2]))):
+                d2 = replaced(d2, p, ["x", r.choice(NUMBERS)])
+            add(cat, kind, render(d2, r if r.random() < 0.3 else None).encode(), d2)
+        elif cat == "foreign":
+            gs = [p for p, j in nodes(doc) if is_geom_obj(j)]
+            if not gs:
+                continue
+            p = r.choice(gs)
+            node = doc
+            for i in p:
+                node = node[1][i] if node[0] == "a" else node[1][i][1]
+            c = r.randrange(3)
+            if c != 1:
+                node = with_member(node, "bbox", r.choice(BBOX))
+            if c != 0:
+                node = with_member(node, "crs", r.choice(CRS))
+            d2 = replaced(doc, p, node)
+            add(cat, kind, render(d2, r if r.random() < 0.3 else None).encode(), d2)
+        elif cat == "wrongtype":
+            ps = [p for p, _ in nodes(doc)]
+            d2 = replaced(doc, r.choice(ps), r.choice(VALUES))
+            add(cat, kind, render(d2, r if r.random() < 0.3 else None).encode(), d2)
+        elif cat == "numid":
+            fs = [p for p, j in nodes(doc) if is_feature_obj(j)]
+            if not fs:
+                continue
+            d2 = doc
+            for p in r.sample(fs, r.randrange(1, len(fs) + 1)):
+                node = d2
+                for i in p:
+                    node = node[1][i] if node[0] == "a" else node[1][i][1]
+                lit = r.choice(IDS) if r.random() < 0.6 else seeded_id(r)
+                tok = ["n", int(lit)] if lit.isdigit() and len(lit) < 9 and r.random() < 0.5 else ["x", lit]
+                d2 = replaced(d2, p, with_member(node, "id", tok))
+            add(cat, kind, render(d2, r if r.random() < 0.5 else None).encode(), d2)
+        elif cat == "random":
+            add(cat, kind, bytes(r.randrange(256) for _ in range(r.randrange(1, 40))))
+        elif cat == "gcnest":
+            k = r.choice([3, 20, 120, 300])
+            pre, post = '{"type":"GeometryCollection","geometries":[', ']}'
+            mid = r.choice(['{"type":"Point","coordinates":[1,2]}', "", "null", '{"type":"Point","coordinates":[1]}', "7"])
+            if kind == "geom":
+                out.append(dict(fam="dec", kind=kind, doc=UNKNOWN, cat=cat, rep=dict(pre=pre, mid=mid, post=post, n=k)))
+            else:
+                add(cat, kind, ('{"type":"Feature","properties":null,"geometry":' + pre * k + mid + post * k + "}").encode())
+    return out
+
+
+def seeded_id(r):
+    """a number literal with at most 15 significant digits, in a random spelling"""
+    digits = str(r.randrange(1, 10 ** r.randrange(1, 16)))
+    c = r.randrange(4)
+    sign = "-" if r.random() < 0.3 else ""
+    if c == 0:
+        return sign + digits
+    if c == 1 and len(digits) > 1:
+        p = r.randrange(1, len(digits))
+        return sign + digits[:p] + "." + digits[p:]
+    if c == 2:
+        return sign + "0." + "0" * r.randrange(0, 6) + digits
+    return sign + digits[0] + ("." + digits[1:] if len(digits) > 1 else "") + r.choice(["e", "E"]) + r.choice(["", "+", "-"]) + str(r.randrange(0, 250))
+
+
 def run(ctx, verdict):
     tier = "quick" if ctx.quick else "thorough"
     cases = []
     ctx.coverage_extra["model_a"] = []
-    for fam in ("geom", "feat", "dec", "fdec"):
-        cfg = "GeoJSON_%s_%s.cfg" % (fam, tier)
-        out, r = vlib.model_a(ctx, "GeoJSONModel", cfg, ["CASE"], workers=8)
+    bases = []
+    fams = ("geom", "feat", "dec", "fdec", "enc")
+    from concurrent.futures import ThreadPoolExecutor
+    with ThreadPoolExecutor(max_workers=len(fams)) as ex:      # five small explorations side by side
+        results = list(ex.map(lambda fam: vlib.model_a(ctx, "GeoJSONModel", "GeoJSON_%s_%s.cfg" % (fam, tier), ["CASE"], workers=2), fams))
+    for fam, (out, r) in zip(fams, results):
         cs = sorted(out["CASE"], key=vlib.digest)
-        ctx.coverage_extra["model_a"].append(dict(cfg=cfg, cases=len(cs), states=r["distinct"]))
+        ctx.coverage_extra["model_a"].append(dict(cfg="GeoJSON_%s_%s.cfg" % (fam, tier), cases=len(cs), states=r["distinct"]))
         cases += cs
+        if fam in ("dec", "fdec", "enc"):
+            bases += [(c["kind"], c["doc"], fam == "enc") for c in cs]
+    raws = raw_cases(ctx.seed, bases, 4000 if ctx.quick else 300000)
+    cats = {}
+    for c in raws:
+        cats[c["cat"]] = cats.get(c["cat"], 0) + 1
+    ctx.coverage_extra["byte_level_inputs"] = dict(seed=ctx.seed, cases=len(raws), by_class=cats)
+    cases += raws
     vlib.note_cases(ctx, cases)
     pipe(ctx, verdict, cases)
     ctx.assumptions += ["numbers are small integer tokens (number formatting belongs to C18); the emitted JSON is read by "
                         "encoding/json into a generic tree, which is independent of go-geom",
-                        "decoder documents come from the bounded universe of the model (wrong kinds at every level, ragged "
-                        "arrays, nulls, unknown and missing members); byte strings that are not JSON are rejected by "
-                        "encoding/json before go-geom sees them",
+                        "decoder documents: the bounded universe of the model (wrong kinds at every level, ragged arrays, nulls, "
+                        "unknown and missing members), the encoder images of every model geometry / feature / collection, and "
+                        "seeded byte strings (other spellings of the same value, truncations, byte edits, non-JSON, duplicate and "
+                        "case-variant keys, huge / fractional numbers, deep nesting, bbox / crs members, wrong types, numeric ids); "
+                        "each is given to Unmarshal and (*Geometry).Decode, or to json.Unmarshal and the UnmarshalJSON method",
+                        "what must come back is fixed only for standard documents (and documents standard apart from a numeric "
+                        "id with at most 15 significant digits); for every other input: no panic, no hang, error or well-formed result",
                         "carve-outs of the property (empty geometry -> default layout, XYM -> XYZ, non-XY geometry with an "
                         "empty first component, multipoint with an empty member) are encoded in RoundTrips/Canon"]
